@@ -42,8 +42,10 @@ THEOREMS = {
 # selectors: the four named algorithms and two out-of-range values
 QUICK, QUICK_R, QUICK_M, HEAP = 0, 1, 2, 3
 SELECTORS = [0, 1, 2, 3, 4, 99]
-ESZS = [1, 2, 4, 8, 3, 16]      # 1/2/4/8: the fast paths of cstl_swap; 3/16: the memcpy path
-IDBITS = {1: 6, 2: 11, 3: 16, 4: 20, 8: 32, 16: 32}
+# 1/2/4/8: the fast paths of cstl_swap; 3/16: the memcpy path; 33/36/40: large elements whose
+# size is / is not a multiple of the word size (a word-wise exchange has a tail to handle)
+ESZS = [1, 2, 4, 8, 3, 16, 33, 36, 40]
+IDBITS = {1: 6, 2: 11, 3: 16, 4: 20, 8: 32, 16: 32, 33: 32, 36: 32, 40: 32}
 KEEP_LIMIT = 64
 SLICE = 2000
 
